@@ -3,6 +3,7 @@ package main
 import (
 	"fmt"
 	"go/ast"
+	"sort"
 	"strconv"
 	"go/token"
 	"go/types"
@@ -448,6 +449,14 @@ func (x *Exec) applyContractInvoke(c *callCtx, fc *FuncContract, sig *types.Sign
 
 func (x *Exec) applyContractWith(c *callCtx, fc *FuncContract, sig *types.Signature, pm map[string]Term, pkg *types.Package, mods func() []string) {
 	pre := c.st.clone()
+	for _, g := range fc.Ghosts {
+		// the callee's ghost state is not visible to the caller: an arbitrary value per call
+		if t, err := x.prog.resolveType(g.Type, pkg); err == nil {
+			if _, clash := pm[g.Name]; !clash {
+				pm[g.Name] = x.fresh("ghost_"+g.Name, t)
+			}
+		}
+	}
 	top := x.top
 	seq := c.fr.callCount["contract:"+fc.Key()] + 1
 	c.fr.callCount["contract:"+fc.Key()] = seq
@@ -505,11 +514,11 @@ func unionProps(a, b []string) []string {
 
 // atCallAsserts: "at call NAME[#k] assert P" clauses of the top-level contract.
 func (x *Exec) atCallAsserts(c *callCtx, callee *ssa.Function) bool {
-	return x.atAsserts(c.fr, c.n, c.st, "call", []string{callee.Name(), funcKey(callee)}, c.instr)
+	return x.atAsserts(c.fr, c.n, c.st, "call", []string{callee.Name(), funcKey(callee)}, c.instr, c.typedArgs()...)
 }
 
 // atAsserts places the contract's "at <where> <target>[#k] assert P" clauses before the instruction.
-func (x *Exec) atAsserts(fr *Frame, n *Node, st *State, where string, targets []string, instr ssa.Instruction) bool {
+func (x *Exec) atAsserts(fr *Frame, n *Node, st *State, where string, targets []string, instr ssa.Instruction, callArgs ...Term) bool {
 	if fr.depth != 0 || fr.contract == nil {
 		return false
 	}
@@ -530,10 +539,27 @@ func (x *Exec) atAsserts(fr *Frame, n *Node, st *State, where string, targets []
 		ck := fmt.Sprintf("at:%d", ai)
 		cnt := fr.callCount[ck] + 1
 		fr.callCount[ck] = cnt
-		if aa.Nth != 0 && aa.Nth != cnt {
-			continue
+		if aa.Nth != 0 {
+			if where == "call" {
+				if aa.Nth != x.siteOrdinal(fr, aa.Target, instr) {
+					continue
+				}
+			} else if aa.Nth != cnt {
+				continue
+			}
 		}
 		env := x.bodyEnv(fr, n, st, instr.Block())
+		if len(callArgs) > 0 {
+			base := env.lookup
+			env.lookup = func(name string, isCur bool) (Term, bool, error) {
+				if strings.HasPrefix(name, "arg") {
+					if k, err := strconv.Atoi(name[3:]); err == nil && k < len(callArgs) {
+						return callArgs[k], true, nil
+					}
+				}
+				return base(name, isCur)
+			}
+		}
 		f, err := x.trBool(aa.Clause.Expr, env)
 		if err != nil {
 			x.contractError(fr, aa.Clause, err)
@@ -616,6 +642,7 @@ func (x *Exec) afterCall(c *callCtx, targets []string) {
 		v Term
 	}
 	var ups []upd
+	siteOf := map[string]int{}
 	for _, as := range fr.contract.Afters {
 		match := false
 		for _, t := range targets {
@@ -624,6 +651,12 @@ func (x *Exec) afterCall(c *callCtx, targets []string) {
 			}
 		}
 		if !match {
+			continue
+		}
+		if _, ok := siteOf[as.Target]; !ok {
+			siteOf[as.Target] = x.siteOrdinal(fr, as.Target, c.instr)
+		}
+		if as.Nth != 0 && as.Nth != siteOf[as.Target] {
 			continue
 		}
 		env := x.bodyEnv(fr, c.n, c.st, c.instr.Block())
@@ -680,4 +713,47 @@ func (x *Exec) afterCall(c *callCtx, targets []string) {
 	for _, u := range ups {
 		x.setNamed(c.n, c.st, x.ghostVar(fr, u.g), u.v.S)
 	}
+}
+
+// siteOrdinal: 1-based position (by source position) of a call instruction among the function's call sites
+// whose callee matches the target name.
+func (x *Exec) siteOrdinal(fr *Frame, target string, instr ssa.Instruction) int {
+	key := "sites:" + target
+	if fr.siteIDs == nil {
+		fr.siteIDs = map[string]map[ssa.Instruction]int{}
+	}
+	ids, ok := fr.siteIDs[key]
+	if !ok {
+		ids = map[ssa.Instruction]int{}
+		var sites []ssa.Instruction
+		for _, b := range fr.fn.Blocks {
+			for _, in := range b.Instrs {
+				ci, isCall := in.(ssa.CallInstruction)
+				if !isCall {
+					continue
+				}
+				var names []string
+				com := ci.Common()
+				if callee := com.StaticCallee(); callee != nil {
+					names = []string{callee.Name(), funcKey(callee)}
+				} else if com.IsInvoke() {
+					names = []string{com.Method.Name(), typeKeyShort(com.Value.Type()) + "." + com.Method.Name()}
+				} else if b, isB := com.Value.(*ssa.Builtin); isB {
+					names = []string{b.Name()}
+				}
+				for _, t := range names {
+					if target == t || strings.HasSuffix(t, "."+target) {
+						sites = append(sites, in)
+						break
+					}
+				}
+			}
+		}
+		sort.SliceStable(sites, func(i, j int) bool { return sites[i].Pos() < sites[j].Pos() })
+		for i, s := range sites {
+			ids[s] = i + 1
+		}
+		fr.siteIDs[key] = ids
+	}
+	return ids[instr]
 }
